@@ -22,7 +22,7 @@ Proof.
     match goal with Hf : forallb _ ?l = true, Hi : In _ ?l |- _ => rewrite forallb_forall in Hf; apply (Hf _ Hi) end.
 Qed.
 
-Lemma premises_sound offered sc : premises_b offered sc = true -> scenario_wf offered sc /\ distinct_outpoints offered sc.
+Lemma premises_sound offered sc : premises_b offered sc = true -> scenario_wf offered sc /\ pre_distinct sc.
 Proof.
   unfold premises_b. intros H. apply Bool.andb_true_iff in H. destruct H as [H1 H2].
   split; [apply scenario_wfb_sound; exact H2|apply nodup_b_sound; exact H1].
@@ -42,9 +42,9 @@ Definition w10_sc : scenario :=
 
 Theorem swap_bookkeeping_refuted :
   exists min_fee ffi cs offered sc st',
-    scenario_wf offered sc /\ distinct_outpoints offered sc /\
-    add_inputs_from min_fee ffi (mkVariant false true true) RandomImprove cs offered sc = (st', Done tt) /\
-    ~ sound_result min_fee ffi false offered sc st'.
+    scenario_wf offered sc /\ pre_distinct sc /\
+    add_inputs_from min_fee ffi (mkVariant false true true true true true) RandomImprove cs offered sc = (st', Done tt) /\
+    ~ sound_result min_fee ffi false offered offered sc st'.
 Proof.
   exists zero_fee, zero_ffi, [0; 1; 0], w10_offered, w10_sc.
   eexists. split; [|split; [|split]].
@@ -69,9 +69,9 @@ Definition w23_sc : scenario :=
 
 Theorem duplicate_outputs_refuted :
   exists min_fee ffi cs offered sc st',
-    scenario_wf offered sc /\ distinct_outpoints offered sc /\
-    add_inputs_from min_fee ffi (mkVariant true false true) RandomImprove cs offered sc = (st', Done tt) /\
-    ~ sound_result min_fee ffi false offered sc st'.
+    scenario_wf offered sc /\ pre_distinct sc /\
+    add_inputs_from min_fee ffi (mkVariant true false true true true true) RandomImprove cs offered sc = (st', Done tt) /\
+    ~ sound_result min_fee ffi false offered offered sc st'.
 Proof.
   exists zero_fee, zero_ffi, [], w23_offered, w23_sc.
   eexists. split; [|split; [|split]].
@@ -93,9 +93,9 @@ Definition wps_sc : scenario :=
 
 Theorem prestep_fee_refuted :
   exists min_fee ffi cs offered sc st',
-    scenario_wf offered sc /\ distinct_outpoints offered sc /\
-    add_inputs_from min_fee ffi (mkVariant true true false) LargestFirst cs offered sc = (st', Done tt) /\
-    ~ sound_result min_fee ffi false offered sc st'.
+    scenario_wf offered sc /\ pre_distinct sc /\
+    add_inputs_from min_fee ffi (mkVariant true true false true true true) LargestFirst cs offered sc = (st', Done tt) /\
+    ~ sound_result min_fee ffi false offered offered sc st'.
 Proof.
   exists wps_fee, wps_ffi, [], wps_offered, wps_sc.
   eexists. split; [|split; [|split]].
@@ -111,39 +111,111 @@ Example prestep_witness_now_insufficient :
 Proof. eexists. vm_compute. reflexivity. Qed.
 
 (* ------------------------------------------------------------------------------------------- *)
-(* Known class C08-burn-not-covered (the code as it is): an asset that is burnt is part of the target
-   (get_total_output) but only LargestFirstMultiAsset selects inputs for it and checks it *)
+(* C08-burn-not-covered (before /repo ab61362): an asset that is burnt is part of the target (get_total_output) but
+   only LargestFirstMultiAsset selected inputs for it and checked it *)
 Definition wb_policy : bytes := [1].
 Definition wb_name : bytes := [2].
 Definition wb_offered : list utxo := [mkUtxo 1 (ada 5000000) true].
 Definition wb_sc : scenario :=
   mkScenario [] (ada 0) (ada 0) [mkOut 0 (ada 1000000)] 0 (mkValue 0 (Some [(wb_policy, [(wb_name, 5)])])) None.
+Definition without_guard : variant := mkVariant true true true true true false.
 
 Theorem burn_not_covered_refuted : forall strat, strat <> LargestFirstMultiAsset ->
-  exists st', scenario_wf wb_offered wb_sc /\ distinct_outpoints wb_offered wb_sc /\
-    add_inputs_from zero_fee zero_ffi current strat [] wb_offered wb_sc = (st', Done tt) /\
-    burn_class strat wb_sc = true /\ ~ covers_assets wb_sc (st_inputs st').
+  exists st', scenario_wf wb_offered wb_sc /\ pre_distinct wb_sc /\
+    add_inputs_from zero_fee zero_ffi without_guard strat [] wb_offered wb_sc = (st', Done tt) /\
+    ~ covers_assets wb_sc (st_inputs st').
 Proof.
   intros strat Hs.
-  assert (W : scenario_wf wb_offered wb_sc /\ distinct_outpoints wb_offered wb_sc) by (apply premises_sound; reflexivity).
+  assert (W : scenario_wf wb_offered wb_sc /\ pre_distinct wb_sc) by (apply premises_sound; reflexivity).
   destruct W as [W1 W2].
-  destruct strat; try (exfalso; apply Hs; reflexivity); eexists; (split; [exact W1|split; [exact W2|split; [vm_compute; reflexivity|split; [reflexivity|]]]]);
+  destruct strat; try (exfalso; apply Hs; reflexivity); eexists; (split; [exact W1|split; [exact W2|split; [vm_compute; reflexivity|]]]);
     intros Hc; specialize (Hc wb_policy wb_name); unfold covers_q in Hc; vm_compute in Hc; apply Hc; reflexivity.
 Qed.
 
-(* LargestFirstMultiAsset on the same scenario: insufficient (no offered UTxO holds the burnt asset) *)
-Example burn_lfma_insufficient :
-  exists st', add_inputs_from zero_fee zero_ffi current LargestFirstMultiAsset [] wb_offered wb_sc = (st', Insufficient).
+(* the code as it is reports insufficiency on the same scenario, for every strategy *)
+Example burn_now_insufficient : forall strat,
+  exists st', add_inputs_from zero_fee zero_ffi current strat [] wb_offered wb_sc = (st', Insufficient).
+Proof. intros []; eexists; vm_compute; reflexivity. Qed.
+
+(* ------------------------------------------------------------------------------------------- *)
+(* Offered UTxO that is already an input of the builder (before /repo 0efa6ad): selected again, the map keeps it
+   once, its amount is counted twice *)
+Definition wo_offered : list utxo := [mkUtxo 5 (ada 3000000) true; mkUtxo 6 (ada 1000000) true].
+Definition wo_sc : scenario :=
+  mkScenario [mkUtxo 5 (ada 3000000) true] (ada 0) (ada 0) [mkOut 0 (ada 4000000)] 0 (ada 0) None.
+Definition without_skip : variant := mkVariant true true true true false true.
+
+Theorem offered_overlap_refuted :
+  exists min_fee ffi cs offered sc st',
+    scenario_wf offered sc /\ pre_distinct sc /\
+    add_inputs_from min_fee ffi without_skip LargestFirst cs offered sc = (st', Done tt) /\
+    ~ sound_result min_fee ffi false offered offered sc st'.
+Proof.
+  exists zero_fee, zero_ffi, [], wo_offered, wo_sc.
+  assert (W : scenario_wf wo_offered wo_sc /\ pre_distinct wo_sc) by (apply premises_sound; reflexivity).
+  destruct W as [W1 W2]. eexists. split; [exact W1|split; [exact W2|split; [vm_compute; reflexivity|]]].
+  intros [_ [_ [fee [Hf [Hc _]]]]]. vm_compute in Hf. inversion Hf; subst fee.
+  unfold covers_coin, covers_q in Hc. vm_compute in Hc. apply Hc. reflexivity.
+Qed.
+
+Example overlap_now_sound :
+  exists st', add_inputs_from zero_fee zero_ffi current LargestFirst [] wo_offered wo_sc = (st', Done tt) /\
+              imap_ids (st_inputs st') = [5; 6].
+Proof. eexists. split; vm_compute; reflexivity. Qed.
+
+(* ------------------------------------------------------------------------------------------- *)
+(* 2 * min, 3 * min in u64 (before /repo 844a848): an output of 2^63 lovelace panics in the profile with overflow
+   checks (and wraps in release: witness corpus/C08/w-improve-overflow.case) *)
+Definition wv_offered : list utxo :=
+  [mkUtxo 1 (ada 9223372036855775808) true; mkUtxo 2 (ada 9300000000000000000) true; mkUtxo 3 (ada 5000000) true].
+Definition wv_sc : scenario :=
+  mkScenario [] (ada 0) (ada 0) [mkOut 0 (ada 9223372036854775808)] 0 (ada 0) None.
+Definition without_exact : variant := mkVariant true true true false true true.
+
+Theorem improve_overflow_refuted :
+  exists st st',
+    add_inputs_from zero_fee zero_ffi without_exact RandomImprove [0; 0; 0] wv_offered wv_sc = (st, Panicked) /\
+    add_inputs_from zero_fee zero_ffi current RandomImprove [0; 0; 0] wv_offered wv_sc = (st', Done tt) /\
+    imap_ids (st_inputs st') = [1].
+Proof. eexists. eexists. split; [vm_compute; reflexivity|split; vm_compute; reflexivity]. Qed.
+
+(* ------------------------------------------------------------------------------------------- *)
+(* fee_for_input with a zero fee placeholder (before /repo d980bbe) under set_min_fee: the increments are differences
+   of estimates raised to the requested fee, priced with a 5-byte fee field, while min_fee() prices a 9-byte field *)
+Definition wf_raw : N -> imap -> result N :=
+  fun field m => Ok (163000 + 44 * (if field <? two32 then 5 else 9) + 6028 * N.of_nat (length m)).
+Definition wf_req : fee_request := NotLess 164000.
+Definition wf_offered : list utxo := [mkUtxo 5 (ada 1169300) true].
+Definition wf_sc : scenario := mkScenario [] (ada 0) (ada 0) [mkOut 0 (ada 1000000)] 0 (ada 0) None.
+
+Theorem fee_placeholder_refuted :
+  exists raw req cs offered sc st',
+    scenario_wf offered sc /\ pre_distinct sc /\
+    add_inputs_from (min_fee_of raw req) (fee_for_input_of raw req 0) current LargestFirst cs offered sc = (st', Done tt) /\
+    forall fee, min_fee_of raw req (st_inputs st') = Ok fee -> ~ covers_coin sc (st_inputs st') fee.
+Proof.
+  exists wf_raw, wf_req, [], wf_offered, wf_sc.
+  assert (W : scenario_wf wf_offered wf_sc /\ pre_distinct wf_sc) by (apply premises_sound; reflexivity).
+  destruct W as [W1 W2]. eexists. split; [exact W1|split; [exact W2|split; [vm_compute; reflexivity|]]].
+  intros fee Hf. vm_compute in Hf. inversion Hf; subst fee.
+  unfold covers_coin, covers_q. vm_compute. intros Hc. apply Hc. reflexivity.
+Qed.
+
+Example fee_placeholder_now_insufficient :
+  exists st', add_inputs_from (min_fee_of wf_raw wf_req) (fee_for_input_of wf_raw wf_req two32) current LargestFirst []
+                wf_offered wf_sc = (st', Insufficient).
 Proof. eexists. vm_compute. reflexivity. Qed.
 
 (* ------------------------------------------------------------------------------------------- *)
 (* Non-vacuity of the premises *)
 
-(* sound_current: a multi-asset random-improve run with a present input, two outputs (one duplicated), 5 draws *)
+(* sound_current: a multi-asset random-improve run with a present input that is also offered, an outpoint offered
+   twice, two identical outputs, 5 draws *)
 Definition ex_policy : bytes := [7; 7].
 Definition ex_tok (q : N) : option multiasset := Some [(ex_policy, [([65], q)])].
 Definition ex_offered : list utxo :=
-  [mkUtxo 10 (mkValue 2000000 (ex_tok 30)) true; mkUtxo 11 (ada 3000000) true; mkUtxo 12 (mkValue 1500000 (ex_tok 50)) true;
+  [mkUtxo 10 (mkValue 2000000 (ex_tok 30)) true; mkUtxo 3 (ada 700000) true; mkUtxo 11 (ada 3000000) true;
+   mkUtxo 12 (mkValue 1500000 (ex_tok 50)) true; mkUtxo 10 (mkValue 2000000 (ex_tok 30)) true;
    mkUtxo 13 (ada 900000) true; mkUtxo 14 (mkValue 1200000 (ex_tok 5)) true].
 Definition ex_sc : scenario :=
   mkScenario [mkUtxo 3 (ada 700000) true] (ada 0) (ada 0)
@@ -153,12 +225,12 @@ Definition ex_fee : imap -> result N := fun m => Ok (170000 + 6000 * N.of_nat (l
 Definition ex_ffi : imap -> utxo -> result N := fun _ _ => Ok 6000.
 
 Example sound_current_premises :
-  exists st', scenario_wf ex_offered ex_sc /\ distinct_outpoints ex_offered ex_sc /\
+  exists st', scenario_wf ex_offered ex_sc /\ pre_distinct ex_sc /\
     add_inputs_from ex_fee ex_ffi current RandomImproveMultiAsset [1; 0; 2; 0; 1] ex_offered ex_sc = (st', Done tt) /\
-    burn_class RandomImproveMultiAsset ex_sc = false /\ (3 <= length (st_trace st'))%nat.
+    (3 <= length (st_trace st'))%nat /\ length (effective_offered current ex_offered ex_sc) = 5%nat.
 Proof.
-  assert (W : scenario_wf ex_offered ex_sc /\ distinct_outpoints ex_offered ex_sc) by (apply premises_sound; reflexivity).
-  destruct W as [W1 W2]. eexists. split; [exact W1|split; [exact W2|split; [vm_compute; reflexivity|split; [reflexivity|]]]].
+  assert (W : scenario_wf ex_offered ex_sc /\ pre_distinct ex_sc) by (apply premises_sound; reflexivity).
+  destruct W as [W1 W2]. eexists. split; [exact W1|split; [exact W2|split; [vm_compute; reflexivity|split; [|reflexivity]]]].
   vm_compute. repeat constructor.
 Qed.
 
@@ -168,12 +240,12 @@ Definition exl_sc (out : N) : scenario := mkScenario [] (ada 0) (ada 0) [mkOut 0
 
 Example largest_first_premises :
   exists st0 st',
-    scenario_wf exl_offered (exl_sc 3000000) /\ distinct_outpoints exl_offered (exl_sc 3000000) /\
+    scenario_wf exl_offered (exl_sc 3000000) /\ pre_distinct (exl_sc 3000000) /\
     initial_state ex_fee (exl_sc 3000000) = (st0, Done tt) /\ coin (st_in st0) < coin (st_out st0) /\
     add_inputs_from ex_fee ex_ffi current LargestFirst [] exl_offered (exl_sc 3000000) = (st', Done tt) /\
     st_trace st' = [1%nat; 2%nat].
 Proof.
-  assert (W : scenario_wf exl_offered (exl_sc 3000000) /\ distinct_outpoints exl_offered (exl_sc 3000000)) by (apply premises_sound; reflexivity).
+  assert (W : scenario_wf exl_offered (exl_sc 3000000) /\ pre_distinct (exl_sc 3000000)) by (apply premises_sound; reflexivity).
   destruct W as [W1 W2]. eexists. eexists.
   split; [exact W1|split; [exact W2|split; [vm_compute; reflexivity|split; [vm_compute; reflexivity|split; vm_compute; reflexivity]]]].
 Qed.
@@ -182,5 +254,9 @@ Example largest_first_insufficient_premises :
   exists st0 st',
     initial_state ex_fee (exl_sc 9000000) = (st0, Done tt) /\ coin (st_in st0) < coin (st_out st0) /\
     add_inputs_from ex_fee ex_ffi current LargestFirst [] exl_offered (exl_sc 9000000) = (st', Insufficient) /\
-    st_trace st' = [1%nat; 2%nat; 0%nat].
-Proof. eexists. eexists. split; [vm_compute; reflexivity|split; [vm_compute; reflexivity|split; vm_compute; reflexivity]]. Qed.
+    st_trace st' = [1%nat; 2%nat; 0%nat] /\ asset_guard st' = true.
+Proof. eexists. eexists. split; [vm_compute; reflexivity|split; [vm_compute; reflexivity|split; [|split]; vm_compute; reflexivity]]. Qed.
+
+(* fee_additive is satisfiable by non-trivial functions: the derived fee_for_input of any min_fee *)
+Example fee_additive_premise : fee_additive ex_fee (derived_ffi ex_fee).
+Proof. apply derived_additive. Qed.
